@@ -393,19 +393,21 @@ Qed.
 
 (* every wrapper type of this repository forwards CloseWrite (facts generated from the source) *)
 Lemma repo_wrappers_forward :
-  has_cw_method LL4Conn = true /\ has_cw_method LThrottle = true /\ has_cw_method LTeeNext = true.
+  has_cw_method LL4Conn = true /\ has_cw_method LThrottle = true /\ has_cw_method LTeeNext = true /\
+  has_cw_method LProxyProtocol = true.
 Proof. vm_compute. repeat split. Qed.
 
-Lemma cw_effect_repo : forall ch, ~ In LProxyProtocol ch -> cw_effect ch = transport_offers ch.
+Lemma cw_effect_repo : forall ch, ~ In LHiding ch -> cw_effect ch = transport_offers ch.
 Proof.
-  destruct repo_wrappers_forward as (H1 & H2 & H3).
+  destruct repo_wrappers_forward as (H1 & H2 & H3 & H4).
   induction ch as [|l r IH]; intros Hn; [reflexivity|].
-  assert (Hr : ~ In LProxyProtocol r) by (intro; apply Hn; right; assumption).
+  assert (Hr : ~ In LHiding r) by (intro; apply Hn; right; assumption).
   cbn [cw_effect transport_offers]. destruct l; cbn [is_wrapper]; rewrite ?andb_true_r; try reflexivity.
   - rewrite H1. apply IH; assumption.
   - rewrite H2. apply IH; assumption.
-  - exfalso; apply Hn; left; reflexivity.
+  - rewrite H4. apply IH; assumption.
   - rewrite H3. apply IH; assumption.
+  - exfalso; apply Hn; left; reflexivity.
 Qed.
 
 Theorem relay_final : forall c s,
@@ -417,9 +419,9 @@ Proof.
 Qed.
 
 (* upstreams finish first, the client waits for EOF before it finishes: stated for every chain
-   whose transport offers half-close and that has no third-party wrapper in it *)
+   whose transport offers half-close and whose wrappers are the connection types of this repository *)
 Theorem half_close_to_client : forall c s,
-  ~ In LProxyProtocol (down c) -> transport_offers (down c) = true ->
+  ~ In LHiding (down c) -> transport_offers (down c) = true ->
   (forall i, i < n_up c -> ufin c i = FinFree /\ up_cw c i = true) ->
   reachable_ff c s -> terminal c s -> final c s.
 Proof.
@@ -440,7 +442,7 @@ Qed.
 
 (* the deadlock behind a wrapper that hides CloseWrite *)
 Definition lost_cfg : cfg :=
-  mkCfg 1 [x68; x69] 0 (fun _ => [x6f; x6b]) FinAfterEof (fun _ => FinFree) (fun _ => true) chain_proxy_protocol.
+  mkCfg 1 [x68; x69] 0 (fun _ => [x6f; x6b]) FinAfterEof (fun _ => FinFree) (fun _ => true) chain_hiding.
 Definition lost_state : st := run (run_fuel lost_cfg) lost_cfg (init lost_cfg).
 
 Theorem half_close_lost : 
